@@ -3,14 +3,16 @@
 (* reference of Placement / PlacementTrace: an added atom is judged against the template's own          *)
 (* coordinates and bond list.  That judgement presupposes that the two agree with each other: every     *)
 (* bond a template lists joins two atoms whose template coordinates are a covalent bond length apart.   *)
-(* Bonds: sequence of [h |-> one end is a hydrogen, s |-> one end is S or P, d |-> length in milli-A].  *)
+(* Bonds: sequence of [h |-> one end is a hydrogen, s |-> one end is S or P, d |-> length in milli-A,   *)
+(* pair |-> TRUE for a record that stands for two atoms of one template that are NOT listed as bonded   *)
+(* (only pairs closer than 1 A are recorded): two atoms of a template never share a position.           *)
 (* Bounds: X-H 0.90..1.15 A (S-H up to 1.40), heavy pairs 1.15..1.65 A (with S or P up to 2.10).        *)
 EXTENDS Naturals, Sequences, TLC, Json, IOUtils
 Bonds == JsonDeserialize(IOEnv.TRACE_FILE)
 VARIABLE x
 Lo(b) == IF b.h THEN 900 ELSE 1150
 Hi(b) == IF b.h THEN (IF b.s THEN 1400 ELSE 1150) ELSE (IF b.s THEN 2100 ELSE 1650)
-Chemical(b) == Lo(b) <= b.d /\ b.d <= Hi(b)
+Chemical(b) == IF b.pair THEN b.d >= 850 ELSE Lo(b) <= b.d /\ b.d <= Hi(b)
 Bad == {k \in 1..Len(Bonds) : ~Chemical(Bonds[k])}
 Init == x = 0
 Next == UNCHANGED x
